@@ -56,6 +56,38 @@ def run(rep, tier, seed):
         for d in (DI.UP, DI.DOWN, DI.UP, DI.DOWN):
             pd.direction = d
             case_match(b, pd, shared_rules, klass='match-shared-ruler:' + stack, ruler=shared)
+        if i % 3 == 1:
+            # target values, MSB patterns and mapping keys that were EDITED IN PLACE before use (item / slice assignment with a value of
+            # another width, so that the length residue modulo 8 changes on the way): the matcher goes by the bits they hold now, whatever
+            # the padding side of the field they are compared with
+            def edited(bits_, side_):
+                i_ = rnd.randint(0, len(bits_))
+                j_ = rnd.randint(i_, len(bits_))
+                junk = randbits(rnd, rnd.choice([0, 1, 2, 3, 5, 9]))
+                t_ = mk(bits_[:i_] + junk + bits_[j_:], side_)
+                if len(junk) == 1 and rnd.random() < 0.6:
+                    t_[i_] = mk(bits_[i_:j_], rnd.choice([L, R]))            # int index: one bit replaced by any number of bits
+                else:
+                    t_[i_:i_ + len(junk)] = mk(bits_[i_:j_], rnd.choice([L, R]))
+                return t_
+            from microschc.rfc8724 import RuleFieldDescriptor as _RFD, RuleDescriptor as _RD, MatchingOperator as _MO, CompressionDecompressionAction as _CDA
+            from core import mkmap, bits_of as _bo
+            fds_e = []
+            for f in pd.fields:
+                fb = _bo(f.value)
+                k_ = rnd.choice(['eq', 'msb', 'map', 'ig'])
+                sd_ = rnd.choice([L, R])
+                if k_ == 'eq':
+                    fds_e.append(_RFD(f.id, len(fb), f.position, DI.BIDIRECTIONAL, edited(fb, sd_), _MO.EQUAL, _CDA.NOT_SENT))
+                elif k_ == 'msb':
+                    x_ = rnd.randint(0, len(fb))
+                    fds_e.append(_RFD(f.id, len(fb), f.position, DI.BIDIRECTIONAL, edited(fb[:x_], sd_), _MO.MSB, _CDA.LSB))
+                elif k_ == 'map':
+                    fds_e.append(_RFD(f.id, len(fb), f.position, DI.BIDIRECTIONAL, mkmap({edited(fb, sd_): mk('1'), mk(fb + '1'): mk('0')}), _MO.MATCH_MAPPING, _CDA.MAPPING_SENT))
+                else:
+                    fds_e.append(_RFD(f.id, len(fb), f.position, DI.BIDIRECTIONAL, mk(''), _MO.IGNORE, _CDA.VALUE_SENT))
+            pd.direction = DI.UP
+            case_match(b, pd, [_RD(id=mk(randbits(rnd, 5)), field_descriptors=fds_e)], klass='match-edited-targets:' + stack)
         if i % 4 == 0:
             # two matchers of ONE Ruler alive at the same time (the generator is lazy: a caller may take one rule for packet A, start
             # on packet B, then come back for the next rule of A): each must go on with its own packet
